@@ -1,5 +1,5 @@
 SPECIFICATION RSpec
-CONSTANTS PairSrc = "all" CtxU = "few" MaxFlow = 0 KeyU = "five"
+CONSTANTS PairSrc = "all" CtxU = "few" MaxFlow = 0 KeyU = "five" Writ = "all"
 INVARIANT KeyCharStep
 INVARIANT ProjPartStep
 INVARIANT OwnerStep
